@@ -516,6 +516,9 @@ double Integrate_MC_Vegas(std::function<double(std::vector<double>&, const doubl
 		}
 		for(j = 0; j < ndim; j++)
 		{
+			// If the squared integrand values of this iteration vanish or lie below the floor TINY altogether, there is no information to refine the grid with: all bins would be raised to the floor (and the weights below would turn into NaN or overflow, since the floor then exceeds the total).
+			if(dt[j] < TINY)
+				continue;
 			rc = 0.0;
 			for(i = 0; i < nd; i++)
 			{
